@@ -144,7 +144,10 @@ class Scene:
         if kind == "coll":
             o = Obj(mp.Collection(), self._name("C"), "coll")
             for ch in s["children"]:
-                c = self._mk_src(ch) if ch.get("kind") != "sensor" else self._mk_sens(ch, register=False)
+                if "ref" in ch:  # an object that is also listed at top level (reachable twice)
+                    c = self.top[ch["ref"]]
+                else:
+                    c = self._mk_src(ch) if ch.get("kind") != "sensor" else self._mk_sens(ch, register=False)
                 o.children.append(c)
                 o.obj.add(c.obj)
             self._pose(o, s.get("path", 1))
